@@ -149,6 +149,12 @@ def _seq(items, flags, notes):
             out.append(_seq(list(av[3]), flags | av[1] & ~av[2], notes))
         elif op in (MAX_REPEAT, MIN_REPEAT):
             lo, hi, sub = av
+            if hi is not MAXREPEAT and hi > 64:
+                # expanding x{m,n} for large n explodes the automaton;
+                # over-approximate by x{min(m,64),}
+                notes.append('bounded repeat {%d,%d} over-approximated by '
+                             'an unbounded one' % (lo, hi))
+                lo, hi = min(lo, 64), MAXREPEAT
             out.append(('rep', _seq(list(sub), flags, notes), lo,
                         None if hi is MAXREPEAT else hi))
         elif op is ASSERT_NOT and av[0] == 1:
